@@ -128,7 +128,7 @@ def run(ctx):
         return
     quick = ctx.tier == "quick"
     runs = [("corpus", ["-mode", "corpus"]),
-            ("random", ["-mode", "random", "-n", 24 if quick else 600]),
+            ("random", ["-mode", "random", "-n", 20 if quick else 600]),
             ("shapes", ["-mode", "shapes", "-n", 8 if quick else 240])]
     cdir = os.path.join(vlib.VERIF, "corpus", "C19")
     descs = []
@@ -163,7 +163,10 @@ def run(ctx):
     unknown = [sh for sh in shapes if not il.is_known(ctx, sh[3])]
     if (unknown or pending) and not real1(shapes):
         # something is wrong but no concrete failing input yet: widen the farm before giving up
-        t2, j2, err = run_harness(ctx, binp, [("widen", ["-mode", "random", "-n", 100, "-seed", ctx.seed + 7919]),
+        # steered by the literals of the source under test (a prefix test on "_", a new reserved name, ...)
+        extra = ",".join(il.names_from_literals(os.path.join(ctx.copy_repo(), "gencommon")))
+        ctx.log("widened farm: user names from the literals of the source:", extra[:160])
+        t2, j2, err = run_harness(ctx, binp, [("widen", ["-mode", "random", "-n", 100, "-seed", ctx.seed + 7919, "-names", extra]),
                                               ("widenshapes", ["-mode", "shapes", "-n", 40, "-seed", ctx.seed + 104729])])
         if not err:
             b2, _, err = judge(ctx, t2, "widen", fn="c19_judge_all")
